@@ -8,9 +8,7 @@ Returns the text, the list of comments it wrote [(char offset, text)] and the ch
 real token.  Oracle-side tool (C02, C03, C05, C11, C12, C13); nothing here is part of a proof."""
 import functools
 from . import gospec
-from .goprint import SEMI
-
-OPTC = '\x00,'
+from .goprint import SEMI, OPTC
 TRIGGER_KW = gospec.TRIGGER_KW
 TRIGGER_OP = gospec.TRIGGER_OP
 OPSET = set(gospec.OPERATORS)
